@@ -147,6 +147,23 @@ def schema_micro(kinds, maxlen, counter):
             yield schema_case("yin", text, "micro:" + kind, arg)
 
 
+def schema_micro_sample(rng, kinds, lengths, n, counter):
+    """random token sequences of the given lengths for the big token sets"""
+    pools = []
+    for d, fmt in ((SCHEMA_KINDS, "yang-q"), (RAW_KINDS, "yang-raw"), (YIN_KINDS, "yin")):
+        for kind, (tmpl, toks) in d.items():
+            if kind in kinds:
+                pools.append((kind, tmpl, [b(t) for t in toks], fmt))
+    for _ in range(n):
+        kind, tmpl, toks, fmt = rng.choice(pools)
+        arg = b"".join(rng.choice(toks) for _ in range(rng.choice(lengths)))
+        k = next(counter)
+        if fmt == "yin":
+            yield schema_case("yin", (YIN_HDR % (k, k, k)) + tmpl.replace(b"%s", arg) + b"</module>", "micro-sampled:" + kind, arg)
+        else:
+            yield schema_case("yang", (HDR % (k, k)) + tmpl.replace(b"%s", yang_dq(arg) if fmt == "yang-q" else arg) + b" }", "micro-sampled:" + kind, arg)
+
+
 # ---------------------------------------------------------------------------------------------------------------
 # data-side micro-grammars (the harness' fixed tree and schema `fz`)
 
